@@ -3,6 +3,9 @@
 ref_coerce below is an independent transcription of docs/overview.rst "Special Cases" (+ the README v1
 notes) over the *documented coercible domain*; inputs outside it only go through the model
 correspondence (the property says nothing about them).
+
+This module runs the default-engine stream; the v1 and EnvWizard streams (and the EnvLoader splitting
+functions) live in c04_engines.py and are run from `run` below.
 """
 from __future__ import annotations
 
